@@ -1078,7 +1078,7 @@ def derived_vars(fn, seeds, prog=None):
 
 # ---------- running a path automaton through helpers ----------
 
-def inlined_step(prog, step, want, depth=3):
+def inlined_step(prog, step, want, depth=3, on_return=None):
     """Wrap an automaton step so that a call to a program-defined function g with want(g) is replaced by running the automaton
     through g's body (its non-throwing exit states become the states after the call).  Bounded depth; recursion is not followed."""
     level = [0]
@@ -1097,7 +1097,9 @@ def inlined_step(prog, step, want, depth=3):
                             exits, _ = cfg.run_automaton(g, st, step2)
                         finally:
                             active.pop()
-                        outs += [x.state for x in exits if x.kind != "throw"]
+                        # on_return(state, exit, callee) may fold what the callee returned into the state (so that the caller's
+                        # branch on the result can be correlated with the path taken inside the callee)
+                        outs += [(on_return(x.state, x, g) if on_return else x.state) for x in exits if x.kind != "throw"]
                 finally:
                     level[0] -= 1
                 return list(dict.fromkeys(outs))
